@@ -14,10 +14,66 @@ import (
 )
 
 type (
-	Pool   = stdsync.Pool
 	Cond   = stdsync.Cond
 	Locker = stdsync.Locker
 )
+
+// Pool mirrors sync.Pool with a deterministic policy: last in, first out, nothing is ever dropped while an
+// execution runs, and whatever an execution leaves behind is gone when the next one starts (the real Pool hands
+// items around per P, drops them at GC and - in race builds - at random; none of that may leak into an exploration).
+// Outside a controlled execution it keeps nothing at all, which sync.Pool permits.
+type Pool struct {
+	New func() interface{}
+
+	mu    stdsync.Mutex
+	items []interface{}
+	exec  uint64
+}
+
+func (p *Pool) Get() interface{} {
+	if vsched.Active() {
+		vsched.Point(vsched.KAtomicW, unsafe.Pointer(p))
+
+		p.mu.Lock()
+
+		if p.exec != vsched.ExecID() {
+			p.items, p.exec = nil, vsched.ExecID()
+		}
+
+		if n := len(p.items); n > 0 {
+			x := p.items[n-1]
+			p.items = p.items[:n-1]
+			p.mu.Unlock()
+
+			return x
+		}
+
+		p.mu.Unlock()
+	}
+
+	if p.New != nil {
+		return p.New()
+	}
+
+	return nil
+}
+
+func (p *Pool) Put(x interface{}) {
+	if x == nil || !vsched.Active() {
+		return
+	}
+
+	vsched.Point(vsched.KAtomicW, unsafe.Pointer(p))
+
+	p.mu.Lock()
+
+	if p.exec != vsched.ExecID() {
+		p.items, p.exec = nil, vsched.ExecID()
+	}
+
+	p.items = append(p.items, x)
+	p.mu.Unlock()
+}
 
 func NewCond(l Locker) *Cond { return stdsync.NewCond(l) }
 
